@@ -14,6 +14,7 @@ pub fn cases(args: &[String]) {
     let mut out: Vec<Value> = Vec::new();
     let special: [u64; 8] = [0, 1, 0x7f, 0x80, 0xff, 0x100, u64::MAX, u64::MAX / 2 + 1];
     for i in 0..n {
+        crate::util::tick_idx(i as u64, serde_json::Value::Null);
         let x = if i < 8 { special[i as usize] } else { rng.next_u64() >> rng.below(64) };
         out.push(json!({"ty": "u8", "values": [x as u8], "bytes": (x as u8).get_sig()}));
         out.push(json!({"ty": "u16", "values": [x as u16], "bytes": (x as u16).get_sig()}));
@@ -33,6 +34,19 @@ pub fn cases(args: &[String]) {
             out.push(json!({"ty": "Vec<u8>", "values": v8, "bytes": a8, "again_same": a8 == b8}));
             out.push(json!({"ty": "Vec<u16>", "values": v16, "bytes": a16, "again_same": a16 == b16}));
             out.push(json!({"ty": "Vec<u32>", "values": v32, "bytes": a32, "again_same": a32 == b32}));
+            // the same values in vectors with spare capacity (grown by push, or shortened): equal values, equal bytes
+            if l < 1000 {
+                let mut w16: Vec<u16> = Vec::with_capacity(l + 1 + (rng.below(40) as usize));
+                for x in &v16 { w16.push(*x); }
+                let mut w32: Vec<u32> = v32.clone();
+                w32.extend_from_slice(&[7, 8, 9, 10, 11]);
+                w32.truncate(l);
+                let mut w8: Vec<u8> = Vec::with_capacity(l + 17);
+                w8.extend_from_slice(&v8);
+                out.push(json!({"ty": "Vec<u8>", "values": w8, "bytes": w8.get_sig(), "spare_capacity": w8.capacity() - w8.len()}));
+                out.push(json!({"ty": "Vec<u16>", "values": w16, "bytes": w16.get_sig(), "spare_capacity": w16.capacity() - w16.len()}));
+                out.push(json!({"ty": "Vec<u32>", "values": w32, "bytes": w32.get_sig(), "spare_capacity": w32.capacity() - w32.len()}));
+            }
             let s: String = (0..(l % 50)).map(|_| ['a', 'é', 'z', '0', '€', ' ', '漢'][rng.below(7) as usize]).collect();
             out.push(json!({"ty": "String", "values": s.as_bytes(), "bytes": s.get_sig()}));
         }
@@ -46,6 +60,7 @@ pub fn stress(args: &[String]) {
     let mut rng = SplitMix64::new(7);
     let mut total = 0usize;
     for r in 0..rounds {
+        crate::util::tick_idx(r as u64, serde_json::Value::Null);
         let l = if r % 50 == 0 { 100_000 } else { (rng.below(2000)) as usize };
         let v16: Vec<u16> = (0..l).map(|i| i as u16).collect();
         let v32: Vec<u32> = (0..l).map(|i| i as u32).collect();
